@@ -12,6 +12,13 @@
                                 header write only touches item_next / crc32 bytes of ONE header, a torn head-table
                                 update only touches the payload / pad / CRC of ONE TRACK_*_HEAD chunk.
      wmw_crash_torn             the same for every program of the writer model
+     wmw_torn_link / wmw_crash_torn_link
+                                a torn in-place header write differs from the file before it at most in the 8 bytes of
+                                item_next and the 4 bytes of crc32 of that one header
+     wmw_fh_stable / wmw_crash_file_header(_open) / wmw_crash_torn_file_header
+                                the model writes at offset 0 only in jls_wr_open and as the last write of jls_wr_close
+                                (wmw_le of WmWriteOnce.v carries this); accepted writes elsewhere start at >= 32; so the
+                                first 32 bytes are the open-time file header (length 0) at every crash point in between
    Guard in addition to those of WmWriteOnce3.v: every value written is a byte (< 256) - the model's byte lists are
    lists of N; stated on the log.
    Every top-level name starts with wmw_. *)
@@ -438,14 +445,6 @@ Proof.
   apply in_rev in Hx. destruct x as [off b| |]; cbn [wmw_to_wo wmw_ev_bytes]; auto. eapply H; eauto.
 Qed.
 
-Lemma wmw_run_snoc_inv : forall lenient l s i e s2, wo_run lenient s i (l ++ [e]) = inl s2 ->
-  exists s1, wo_run lenient s i l = inl s1 /\ wo_step lenient s1 e = inl s2.
-Proof.
-  induction l as [|x l IH]; intros s i e s2 H; cbn [app wo_run] in *.
-  - destruct (wo_step lenient s e) as [s1|] eqn:Es; [|discriminate]. exists s. split; [reflexivity|]. cbn [wo_run] in H. inversion H; subst. exact Es.
-  - destruct (wo_step lenient s x) as [s1|]; [|discriminate]. eapply IH; eauto.
-Qed.
-
 Lemma wmw_firstn_snoc : forall (A : Type) (l : list A) k x, nth_error l k = Some x -> firstn (S k) l = firstn k l ++ [x].
 Proof.
   intros A l. induction l as [|y l IH]; intros k x H; destruct k; cbn in *; try discriminate.
@@ -548,4 +547,208 @@ Proof.
     eexists. exists (wo_e_hdr x). split; [vm_compute; reflexivity|]. split; [reflexivity|]. split; [exact Hc|].
     revert Ex. revert E. vm_compute. intro E. inversion E; subst s. vm_compute. intro Ex. inversion Ex; subst x. split; reflexivity.
   - exfalso. revert Ex. revert E. vm_compute. intro E. inversion E; subst s. vm_compute. discriminate.
+Qed.
+
+(* ================================================================ the file header at every crash point *)
+Lemma wmw_inv_len32 : forall s f, wo_inv s f -> wo_len s <> 0 -> 32 <= N.of_nat (length f).
+Proof.
+  intros s f I Hne. pose proof (wi_len _ _ I) as Hlen. pose proof (wi_chain _ _ I Hne) as Hc.
+  destruct (wo_chunks_bounds _ _ _ Hc) as [A _]. pose proof (wi_pend _ _ I Hne) as Hp.
+  unfold wo_pend_ok in Hp. destruct (wo_pending s); lia.
+Qed.
+
+(* an accepted write that is not at offset 0, complete or torn, leaves the first 32 bytes alone *)
+Lemma wmw_step_keeps_fh : forall s f off b s' j,
+  wo_inv s f -> wo_len s <> 0 -> wo_step false s (WoWrite off b) = inl s' -> off <> 0 ->
+  firstn 32 (wo_apply_write f off (firstn j b)) = firstn 32 f.
+Proof.
+  intros s f off b s' j I Hne Hstep Hoff.
+  pose proof (wmw_inv_len32 _ _ I Hne) as H32. pose proof (wi_len _ _ I) as Hlen.
+  set (f' := wo_apply_write f off (firstn j b)).
+  assert (K : (length f <= length f')%nat /\ forall i, (i < 32)%nat -> nth i f' 0 = nth i f 0).
+  { assert (Hfind : forall a x, wo_find a (wo_exts s) = Some x -> In (a, wo_e_hdr x) (wo_pairs (wo_exts s))).
+    { intros a x Hf. destruct (wo_find_some _ _ _ Hf) as [Hi Ho]. rewrite <- Ho. now apply wo_pairs_in. }
+    destruct (wo_chunks_bounds _ _ _ (wi_chain _ _ I Hne)) as [_ Hbd].
+    assert (Hin_place : 32 <= off -> off + N.of_nat (length b) <= N.of_nat (length f) ->
+              (length f <= length f')%nat /\ forall i, (i < 32)%nat -> nth i f' 0 = nth i f 0).
+    { intros H1 H2. destruct (wmw_partial_inplace f off b j ltac:(lia)) as (A & B & _). fold f' in A, B.
+      split; [lia|]. intros i Hi. apply B. lia. }
+    destruct (wmw_step_region _ _ _ _ _ Hstep) as [E0 _ Hl|Ea|x h' _ Hf Hl Hd Hdiff|x _ H32' Hf Hhead Hpl Hl|o1 h1 p1 _ Hp Eo Hl].
+    - contradiction.
+    - destruct (wmw_partial_append f off (firstn j b) ltac:(lia)) as [A B]. fold f' in A, B.
+      split; [exact A|]. intros i Hi. apply B. lia.
+    - destruct (Hbd _ _ (Hfind _ _ Hf)) as (B1 & B2 & B3 & _). pose proof (wo_size_ge (wo_e_hdr x)). apply Hin_place; lia.
+    - destruct (Hbd _ _ (Hfind _ _ Hf)) as (B1 & B2 & B3 & _).
+      assert (Hsz : wo_size (wo_e_hdr x) = 168) by (unfold wo_size; rewrite Hpl; reflexivity). apply Hin_place; lia.
+    - pose proof (wi_pend _ _ I Hne) as Hpd. unfold wo_pend_ok in Hpd. rewrite Hp in Hpd. destruct Hpd as (_ & Hinx & Hpl & _).
+      destruct (Hbd _ _ Hinx) as (B1 & B2 & B3 & _).
+      assert (Hsz : wo_size h1 = 168) by (unfold wo_size; rewrite Hpl; reflexivity).
+      rewrite Hpl in Eo, Hl. change (fm_pad_len SIZEOF_track_head + 4) with 8 in Hl. unfold SIZEOF_track_head in Eo.
+      apply Hin_place; lia. }
+  destruct K as [K1 K2].
+  pose proof (wo_window_eq f' f 0 32) as W. cbn [skipn] in W. apply W; [intros i Hi; apply K2; lia|lia|lia].
+Qed.
+
+Definition wmw_nz_evs (l : list wo_ev) : Prop := forall b, ~ In (WoWrite 0 b) l.
+
+Lemma wmw_fh_stable_run : forall rest s f i s', wo_inv s f -> wo_len s <> 0 -> wmw_nz_evs rest ->
+  wo_run false s i rest = inl s' ->
+  forall k, firstn 32 (fold_left wo_apply (firstn k rest) f) = firstn 32 f.
+Proof.
+  induction rest as [|e rest IH]; intros s f i s' I Hne Hnz Hrun k; [destruct k; reflexivity|].
+  destruct k as [|k]; [reflexivity|]. rewrite firstn_cons. cbn [fold_left].
+  cbn [wo_run] in Hrun. destruct (wo_step false s e) as [s1|] eqn:Es; [|discriminate].
+  destruct (wo_step_sound _ _ _ _ _ I Es) as [I1 [Hlen _]].
+  assert (Hne1 : wo_len s1 <> 0).
+  { pose proof (wi_len _ _ I) as L0. pose proof (wi_len _ _ I1) as L1. lia. }
+  assert (Hnz1 : wmw_nz_evs rest) by (intros b Hb; apply (Hnz b); now right).
+  rewrite (IH s1 (wo_apply f e) (i + 1) s' I1 Hne1 Hnz1 Hrun k).
+  destruct e as [off b|n|]; cbn [wo_apply].
+  - assert (Hoff : off <> 0) by (intro E; subst off; apply (Hnz b); now left).
+    pose proof (wmw_step_keeps_fh s f off b s1 (length b) I Hne Es Hoff) as H. rewrite firstn_all in H. exact H.
+  - cbn [wo_step] in Es. destruct (n =? wo_len s) eqn:En; [|discriminate]. apply N.eqb_eq in En.
+    pose proof (wi_len _ _ I) as L0. replace (N.to_nat n) with (length f) by lia.
+    rewrite firstn_all, Nat.sub_diag. cbn [repeat]. rewrite app_nil_r. reflexivity.
+  - reflexivity.
+Qed.
+
+Theorem wmw_fh_stable : forall b0 rest, wo_check_log (WoTrunc 0 :: WoWrite 0 b0 :: rest) = true -> wmw_nz_evs rest ->
+  forall k, (2 <= k)%nat -> firstn 32 (wo_file_after (firstn k (WoTrunc 0 :: WoWrite 0 b0 :: rest))) = b0.
+Proof.
+  intros b0 rest Hacc Hnz k Hk. destruct k as [|[|k]]; try lia. rewrite !firstn_cons.
+  unfold wo_check_log, wo_check_log_gen in Hacc.
+  destruct (wo_run false wo_st0 0 (WoTrunc 0 :: WoWrite 0 b0 :: rest)) as [s'|] eqn:E; [|discriminate].
+  cbn [wo_run] in E. change (wo_step false wo_st0 (WoTrunc 0)) with (@inl wo_st wo_reason wo_st0) in E. cbv beta iota in E.
+  destruct (wo_step false wo_st0 (WoWrite 0 b0)) as [s1|] eqn:E1; [|discriminate].
+  assert (R2 : wo_run false wo_st0 0 [WoTrunc 0; WoWrite 0 b0] = inl s1).
+  { cbn [wo_run]. change (wo_step false wo_st0 (WoTrunc 0)) with (@inl wo_st wo_reason wo_st0). cbv beta iota. rewrite E1. reflexivity. }
+  pose proof (wo_run_tracks_chunks _ _ _ R2) as I1.
+  assert (F2 : wo_file_after [WoTrunc 0; WoWrite 0 b0] = b0).
+  { unfold wo_file_after. cbn [fold_left wo_apply]. change (N.to_nat 0) with 0%nat. cbn [firstn Nat.sub repeat app length].
+    unfold wo_apply_write. change (N.to_nat 0) with 0%nat. cbn [firstn Nat.sub repeat app length Nat.add].
+    rewrite skipn_nil, app_nil_r. reflexivity. }
+  rewrite F2 in I1.
+  assert (L32 : length b0 = 32%nat).
+  { cbn [wo_step] in E1. unfold wo_step_write in E1. cbv zeta in E1. rewrite N.eqb_refl in E1.
+    destruct (fm_decode_file_header b0); [|discriminate].
+    destruct (N.of_nat (length b0) =? SIZEOF_file_header) eqn:El; cbn [negb] in E1; [|discriminate].
+    apply N.eqb_eq in El. unfold SIZEOF_file_header in El. lia. }
+  assert (Hne1 : wo_len s1 <> 0) by (pose proof (wi_len _ _ I1); lia).
+  unfold wo_file_after. cbn [fold_left].
+  change (wo_apply (wo_apply [] (WoTrunc 0)) (WoWrite 0 b0)) with (wo_file_after [WoTrunc 0; WoWrite 0 b0]).
+  rewrite F2. rewrite (wmw_fh_stable_run rest s1 b0 (0 + 1 + 1) s' I1 Hne1 Hnz E k).
+  rewrite <- L32. apply firstn_all.
+Qed.
+
+(* the model: every reachable state (jls_wr_open; calls ...; possibly jls_wr_close up to its last write) *)
+Lemma wmw_nz_evs_of : forall l, wmw_nz l -> wmw_nz_evs (map wmw_to_wo (rev l)).
+Proof.
+  intros l H b Hin. apply in_map_iff in Hin. destruct Hin as (e & He & Hin). apply in_rev in Hin.
+  destruct e as [off b'| |]; cbn [wmw_to_wo] in He; try discriminate. inversion He; subst. exact (H b Hin).
+Qed.
+
+Definition wmw_fh0 : fm_file_header := {| fm_fh_length := 0; fm_fh_version := JLS_FORMAT_VERSION_U32 |}.
+
+Lemma wmw_fh_decode : forall f, firstn 32 f = wm_file_header_bytes 0 -> fm_decode_file_header f = Some wmw_fh0.
+Proof.
+  intros f H. rewrite <- (firstn_skipn 32 f), H. unfold wm_file_header_bytes. apply fm_file_header_roundtrip; reflexivity.
+Qed.
+
+Lemma wmw_reach_fh : forall st, wmw_ststep wm_state0 st -> wm_st_fault st = false -> wmw_bounded (wm_st_log st) ->
+  forall k, (2 <= k)%nat -> firstn 32 (wo_file_after (firstn k (wmw_evs (wm_st_log st)))) = wm_file_header_bytes 0.
+Proof.
+  intros st Hreach Hf Hb k Hk.
+  destruct (wmw_reach_accepted st Hreach Hf Hb) as (s & Hinv). pose proof (wmw_stinv_run _ _ Hinv) as Hrun.
+  destruct (wmw_reach_log_shape st Hreach Hf) as (l & Hl & Hnz).
+  assert (Hev : wmw_evs (wm_st_log st) = WoTrunc 0 :: WoWrite 0 (wm_file_header_bytes 0) :: map wmw_to_wo (rev l)).
+  { unfold wmw_evs. rewrite Hl, rev_app_distr. reflexivity. }
+  rewrite Hev in Hrun |- *. apply wmw_fh_stable; [|apply wmw_nz_evs_of; exact Hnz|exact Hk].
+  unfold wo_check_log, wo_check_log_gen. rewrite Hrun. reflexivity.
+Qed.
+
+Theorem wmw_crash_file_header_open : forall summ1 summN p,
+  let st := fst (wm_steps summ1 summN wm_api_open p []) in
+  wm_st_fault st = false -> wmw_bounded (wm_st_log st) ->
+  forall k, (2 <= k)%nat ->
+    let f := wo_file_after (firstn k (wmw_evs (wm_st_log st))) in
+    firstn 32 f = wm_file_header_bytes 0 /\ fm_decode_file_header f = Some wmw_fh0.
+Proof.
+  intros summ1 summN p st Hf Hb k Hk f.
+  assert (H : firstn 32 f = wm_file_header_bytes 0).
+  { apply wmw_reach_fh; try assumption.
+    eapply wmw_ststep_trans; [apply wmw_api_open_step|apply wmw_steps_step]. }
+  split; [exact H|apply wmw_fh_decode; exact H].
+Qed.
+
+Lemma wmw_fin_fh : forall pre, wmw_ststep wm_state0 pre ->
+  wm_st_fault (wmw_fin pre) = false -> wmw_bounded (wm_st_log (wmw_fin pre)) ->
+  forall k, (2 <= k < length (wmw_evs (wm_st_log (wmw_fin pre))))%nat ->
+    firstn 32 (wo_file_after (firstn k (wmw_evs (wm_st_log (wmw_fin pre))))) = wm_file_header_bytes 0 /\
+    fm_decode_file_header (wo_file_after (firstn k (wmw_evs (wm_st_log (wmw_fin pre))))) = Some wmw_fh0.
+Proof.
+  intros pre Hreach Hf Hb k Hk.
+  destruct (wmw_close_log (wm_b_raw (wm_st_base pre))) as [Lc Fc].
+  assert (Hev : wmw_evs (wm_st_log (wmw_fin pre)) =
+                wmw_evs (wm_st_log pre) ++ [WoWrite 0 (wm_file_header_bytes (wm_fend (wm_b_raw (wm_st_base pre))))]).
+  { unfold wmw_fin, wm_st_log. cbn [wm_st_base wm_st_set_base wm_b_raw wm_b_set_raw]. rewrite Lc, wmw_evs_cons. reflexivity. }
+  assert (G : wm_st_fault pre = false /\ wmw_bounded (wm_st_log pre)).
+  { unfold wmw_fin, wm_st_fault, wm_st_log in *. cbn [wm_st_base wm_st_set_base wm_b_raw wm_b_set_raw] in *.
+    apply wmw_good_close. split; assumption. }
+  destruct G as [G1 G2].
+  rewrite Hev in Hk |- *. rewrite app_length in Hk. cbn [length] in Hk.
+  rewrite firstn_app. replace (k - length (wmw_evs (wm_st_log pre)))%nat with 0%nat by lia.
+  rewrite firstn_O, app_nil_r.
+  assert (H : firstn 32 (wo_file_after (firstn k (wmw_evs (wm_st_log pre)))) = wm_file_header_bytes 0).
+  { apply wmw_reach_fh; [exact Hreach|exact G1|exact G2|lia]. }
+  split; [exact H|apply wmw_fh_decode; exact H].
+Qed.
+
+Theorem wmw_crash_file_header : forall summ1 summN p,
+  let st := fst (wm_run_full summ1 summN p) in
+  wm_st_fault st = false -> wmw_bounded (wm_st_log st) ->
+  forall k, (2 <= k < length (wmw_evs (wm_st_log st)))%nat ->
+    let f := wo_file_after (firstn k (wmw_evs (wm_st_log st))) in
+    firstn 32 f = wm_file_header_bytes 0 /\ fm_decode_file_header f = Some wmw_fh0.
+Proof.
+  intros summ1 summN p. cbv zeta. destruct (wmw_run_pre summ1 summN p) as [Hreach Heq]. rewrite Heq.
+  apply wmw_fin_fh. exact Hreach.
+Qed.
+
+(* torn writes: unless write k+1 is the final file-header write itself (offset 0), the first 32 bytes of the image (k, j)
+   are those of the image (k, 0) *)
+Theorem wmw_crash_torn_file_header : forall summ1 summN p,
+  let st := fst (wm_run_full summ1 summN p) in
+  wm_st_fault st = false -> wmw_bounded (wm_st_log st) ->
+  forall k off b, nth_error (wmw_evs (wm_st_log st)) k = Some (WoWrite off b) -> (2 <= k)%nat -> off <> 0 ->
+  forall j,
+    let f := wo_file_after (firstn k (wmw_evs (wm_st_log st))) in
+    firstn 32 (wo_apply_write f off (firstn j b)) = firstn 32 f.
+Proof.
+  intros summ1 summN p. cbv zeta. intros Hf Hb k off b Hk H2 Hoff j.
+  set (evs := wmw_evs (wm_st_log (fst (wm_run_full summ1 summN p)))) in *.
+  pose proof (wmw_run_accepted summ1 summN p Hf Hb) as Hacc. cbv zeta in Hacc. fold evs in Hacc.
+  pose proof (wmw_check_log_prefix (firstn (S k) evs) (skipn (S k) evs)) as Hp.
+  rewrite firstn_skipn in Hp. specialize (Hp Hacc). rewrite (wmw_firstn_snoc _ _ _ _ Hk) in Hp.
+  unfold wo_check_log, wo_check_log_gen in Hp.
+  destruct (wo_run false wo_st0 0 (firstn k evs ++ [WoWrite off b])) as [s'|] eqn:E; [|discriminate].
+  destruct (wmw_run_snoc_inv _ _ _ _ _ _ E) as (s & E1 & E2).
+  pose proof (wo_run_tracks_chunks _ _ _ E1) as I.
+  apply (wmw_step_keeps_fh s _ off b s' j I); [|exact E2|exact Hoff].
+  (* the file is not empty after two calls *)
+  pose proof (wi_len _ _ I) as Hlen. intro E0.
+  assert (Hnth : nth_error evs k <> None) by (rewrite Hk; discriminate).
+  apply nth_error_Some in Hnth.
+  destruct (wmw_crash_file_header summ1 summN p Hf Hb k (conj H2 Hnth)) as [Hfh _]. cbv zeta in Hfh. fold evs in Hfh.
+  assert (Hl0 : length (wo_file_after (firstn k evs)) = 0%nat) by lia. apply length_zero_iff_nil in Hl0. rewrite Hl0 in Hfh.
+  rewrite firstn_nil in Hfh. apply (f_equal (@length N)) in Hfh. unfold wm_file_header_bytes in Hfh.
+  rewrite fm_encode_file_header_length in Hfh. discriminate.
+Qed.
+
+Lemma wmw_steps_log_shape : forall summ1 summN p,
+  let st := fst (wm_steps summ1 summN wm_api_open p []) in
+  wm_st_fault st = false ->
+  exists l, wm_st_log st = l ++ [WmWrite 0 (wm_file_header_bytes 0); WmTrunc 0] /\ wmw_nz l.
+Proof.
+  intros summ1 summN p st Hf. apply wmw_reach_log_shape; [|exact Hf].
+  eapply wmw_ststep_trans; [apply wmw_api_open_step|apply wmw_steps_step].
 Qed.
